@@ -291,15 +291,15 @@ Definition abs_pts (w : writer) : list (val * val * val) :=
   map (fun p => (fst p, snd p, vzero)) (w_points w) ++ map (fun s => (fst (fst s), snd (fst s), vzero)) (w_spheres w).
 Definition abs_cells (w : writer) : list (list nat) := w_cells w ++ map (fun e => [fst e; snd e]) (w_edges w).
 Definition abs_types (w : writer) : list nat := repeat (w_ctype w) (length (w_cells w)) ++ repeat 3 (length (w_edges w)).
-(* every written point carries one record: user fields padded with zeros for the sphere points, and the marker radius
-   (zero on mesh points) when there are spheres *)
+(* every written point carries one record: user fields padded with zeros for the sphere points, and, when there are
+   spheres, the marker radius (zero on mesh points) stored under the reserved key 'sphere_radius' *)
 Definition abs_pd (w : writer) : option (nat * list array) :=
   if is_nil (w_nodal w) && is_nil (w_spheres w) then None else
   let nsph := length (w_spheres w) in
   let user := map (fun nf => (fst nf, pad_field nsph (snd nf))) (w_nodal w) in
   Some (length (w_points w) + nsph,
         map to_array (if is_nil (w_spheres w) then user
-                      else user ++ [(sr_name, sphere_field (length (w_points w)) (map snd (w_spheres w)))])).
+                      else dict_set user sr_name (sphere_field (length (w_points w)) (map snd (w_spheres w))))).
 (* every written cell (mesh elements and contact-edge cells) carries one record *)
 Definition abs_cd (w : writer) : option (nat * list array) :=
   if is_nil (w_cell w) then None else
@@ -359,17 +359,21 @@ Definition rpe (ft : ftype) : nat := match ft with TENSORS => 3 | _ => 1 end.   
 Definition field_ok (n : nat) (f : field) : Prop :=
   length (f_rows f) = n * rpe (f_ft f) /\ Forall (fun r => length r = width (f_ft f)) (f_rows f).
 Definition dict_ok (n : nat) (d : fields) : Prop := NoDup (map fst d) /\ Forall (fun nf => field_ok n (snd nf)) d.
+(* nodal dict: the entry under the reserved key 'sphere_radius' is rewritten by every write() with spheres, so its stored
+   rows are irrelevant then; every other entry has one record per output node *)
+Definition nodal_ok (w : writer) : Prop :=
+  NoDup (map fst (w_nodal w))
+  /\ Forall (fun nf => (fst nf = sr_name /\ w_spheres w <> []) \/ field_ok (length (w_points w)) (snd nf)) (w_nodal w).
 Definition wf_writer (w : writer) : Prop :=
   length (w_outnodes w) = length (w_points w)
   /\ Forall (fun c => length c = w_k w) (w_cells w)
-  /\ dict_ok (length (w_points w)) (w_nodal w) /\ dict_ok (length (w_cells w)) (w_cell w).
+  /\ nodal_ok w /\ dict_ok (length (w_cells w)) (w_cell w).
 (* element and contact-edge connectivity refers to written points *)
 Definition in_range (w : writer) : Prop :=
   Forall (Forall (fun i => i < length (w_points w) + length (w_spheres w))) (abs_cells w).
 (* the three conditions under which the faithful model meets the property (each is violated by one known defect) *)
 Definition all_nodes_written_if_spheres (w : writer) : Prop := w_spheres w = [] \/ w_nall w = length (w_points w).
 Definition no_cell_data_with_edges (w : writer) : Prop := w_cell w = [] \/ w_edges w = [].
-Definition no_user_sphere_radius (w : writer) : Prop := w_spheres w = [] \/ ~ In sr_name (map fst (w_nodal w)).
 Definition only_sphere_radius (w : writer) : Prop := forall nm, In nm (map fst (w_nodal w)) -> nm = sr_name.
 (* meaning of [data_ok]: the declared count is n and every array has exactly one record per entity *)
 Definition data_spec (n : nat) (d : option (nat * list array)) : Prop :=
